@@ -63,6 +63,200 @@ func runC15(c *Ctx) {
 	c.rule("R15.6", "collection: list reset at entry, one empty element per line break, one element per comment = the bytes advanced over; constructors copy the list")
 	c.floor(3)
 	ruleCommentCollection(c)
+
+	c.rule("R15.7", "an emptiness test of the output buffer is consulted only while it is still true of the buffer: nothing is written between taking it and branching on it")
+	c.floor(2)
+	ruleFreshEmptinessTests(c)
+}
+
+// ruleFreshEmptinessTests: the writer suppresses separators (the space before a trailing comment, the line break
+// between replayed comments, pending layout) while the output is still empty. Such a test must be taken afresh: a
+// value taken before a loop and consulted inside it keeps saying "empty" after the first entry was written, and the
+// comments that follow are glued to it.
+func ruleFreshEmptinessTests(c *Ctx) {
+	c.buildSSA()
+	w := c.writerCfg()
+	if w == nil || w.buf == nil {
+		c.unres("writer fields", token.NoPos, "output buffer not found")
+		return
+	}
+	isBufLen := func(v ssa.Value) bool {
+		call, ok := v.(*ssa.Call)
+		if !ok {
+			return false
+		}
+		if cal := call.Call.StaticCallee(); cal != nil && pkgPathOf(cal) == "strings" && cal.Name() == "Len" {
+			fa, ok := call.Call.Args[0].(*ssa.FieldAddr)
+			return ok && fieldOfAddr(fa) == w.buf
+		}
+		if lc, ok := isBuiltinCall(v, "len"); ok {
+			if sc, ok := lc.Call.Args[0].(*ssa.Call); ok {
+				if cal := sc.Call.StaticCallee(); cal != nil && pkgPathOf(cal) == "strings" && cal.Name() == "String" {
+					fa, ok := sc.Call.Args[0].(*ssa.FieldAddr)
+					return ok && fieldOfAddr(fa) == w.buf
+				}
+			}
+		}
+		return false
+	}
+	// functions of package ast that (transitively) write the buffer
+	writes := map[*ssa.Function]bool{}
+	fns := c.libFunctions("ast")
+	for changed := true; changed; {
+		changed = false
+		for _, f := range fns {
+			if writes[f] {
+				continue
+			}
+			allInstrs(f, func(_ *ssa.BasicBlock, _ int, in ssa.Instruction) {
+				call, ok := in.(*ssa.Call)
+				if !ok || writes[f] {
+					return
+				}
+				if cal := call.Call.StaticCallee(); cal != nil {
+					if pkgPathOf(cal) == "strings" && strings.HasPrefix(cal.Name(), "Write") && len(call.Call.Args) >= 1 {
+						if fa, ok := call.Call.Args[0].(*ssa.FieldAddr); ok && fieldOfAddr(fa) == w.buf {
+							writes[f], changed = true, true
+						}
+					}
+					if writes[cal] {
+						writes[f], changed = true, true
+					}
+				} else if call.Call.IsInvoke() && call.Call.Method.Name() == "WriteTo" {
+					writes[f], changed = true, true
+				}
+			})
+		}
+	}
+	mayWrite := func(in ssa.Instruction) bool {
+		call, ok := in.(*ssa.Call)
+		if !ok {
+			return false
+		}
+		if call.Call.IsInvoke() {
+			return call.Call.Method.Name() == "WriteTo"
+		}
+		cal := call.Call.StaticCallee()
+		if cal == nil {
+			return false
+		}
+		if pkgPathOf(cal) == "strings" && strings.HasPrefix(cal.Name(), "Write") && len(call.Call.Args) >= 1 {
+			if fa, ok := call.Call.Args[0].(*ssa.FieldAddr); ok && fieldOfAddr(fa) == w.buf {
+				return true
+			}
+		}
+		return writes[cal]
+	}
+	// the emptiness reads: the buffer length itself, or a one-line predicate of the writer that returns a comparison of it
+	isTest := func(v ssa.Value) bool {
+		if isBufLen(v) {
+			return true
+		}
+		call, ok := v.(*ssa.Call)
+		if !ok || call.Call.IsInvoke() {
+			return false
+		}
+		cal := call.Call.StaticCallee()
+		if cal == nil || cal.Blocks == nil || len(cal.Blocks) != 1 {
+			return false
+		}
+		ret, ok := cal.Blocks[0].Instrs[len(cal.Blocks[0].Instrs)-1].(*ssa.Return)
+		if !ok || len(ret.Results) != 1 {
+			return false
+		}
+		return dependsOn(ret.Results[0], isBufLen)
+	}
+	idx := func(in ssa.Instruction) int {
+		for i, x := range in.Block().Instrs {
+			if x == in {
+				return i
+			}
+		}
+		return -1
+	}
+	// reachAvoid: some path from just after `from` reaches `to` without executing `avoid` again
+	reachAvoid := func(from, to, avoid ssa.Instruction) bool {
+		type pos struct {
+			b *ssa.BasicBlock
+			i int
+		}
+		seen := map[*ssa.BasicBlock]bool{}
+		var scan func(b *ssa.BasicBlock, start int) bool
+		scan = func(b *ssa.BasicBlock, start int) bool {
+			for i := start; i < len(b.Instrs); i++ {
+				if b.Instrs[i] == to {
+					return true
+				}
+				if b.Instrs[i] == avoid {
+					return false
+				}
+			}
+			for _, s := range b.Succs {
+				if seen[s] {
+					continue
+				}
+				seen[s] = true
+				if scan(s, 0) {
+					return true
+				}
+			}
+			return false
+		}
+		return scan(from.Block(), idx(from)+1)
+	}
+	n := 0
+	for _, f := range fns {
+		nf := 0
+		allInstrs(f, func(b *ssa.BasicBlock, _ int, in ssa.Instruction) {
+			iff, ok := in.(*ssa.If)
+			if !ok {
+				return
+			}
+			// the emptiness reads this condition is computed from
+			var reads []ssa.Instruction
+			seenV := map[ssa.Value]bool{}
+			var collect func(v ssa.Value)
+			collect = func(v ssa.Value) {
+				if v == nil || seenV[v] {
+					return
+				}
+				seenV[v] = true
+				if isTest(v) {
+					reads = append(reads, v.(ssa.Instruction))
+					return
+				}
+				if vi, ok := v.(ssa.Instruction); ok {
+					for _, op := range vi.Operands(nil) {
+						if *op != nil {
+							collect(*op)
+						}
+					}
+				}
+			}
+			collect(iff.Cond)
+			if len(reads) == 0 {
+				return
+			}
+			n++
+			nf++
+			key := fmt.Sprintf("%s: emptiness test #%d", fnName(f), nf)
+			stale := ""
+			for _, rd := range reads {
+				allInstrs(f, func(_ *ssa.BasicBlock, _ int, wi ssa.Instruction) {
+					if stale != "" || wi == rd || !mayWrite(wi) {
+						return
+					}
+					if instrReachableAfter(rd, wi) && reachAvoid(wi, iff, rd) {
+						stale = c.pos(wi.Pos())
+					}
+				})
+			}
+			c.check(stale == "", key, iff.Pos(), "consulted before anything is written after it was taken", "the buffer can be written ("+stale+") between taking this emptiness test and branching on it: a stale \"still empty\" suppresses the separator in front of every later entry (comments are glued together, the first statement is glued to a header comment)")
+		})
+	}
+	if n == 0 {
+		c.unres("emptiness tests", token.NoPos, "no branch on the output buffer's length found in package ast")
+	}
 }
 
 func ruleReplayOrder(c *Ctx, node string, pe *printerEvents, facts []*parseFacts) {
